@@ -1,6 +1,7 @@
 import os
 import stat
 from typing import Optional
+from urllib.parse import quote
 
 from baize import staticfiles
 from baize.datastructures import URL
@@ -80,12 +81,16 @@ class Pages(Files):
                 if_modified_since = v.decode("latin-1")
         filepath = self.ensure_absolute_path(scope["path"])
         stat_result, is_file = self.check_path_is_file(filepath)
+        # only the requested path itself can be a directory URL, not a candidate
+        # ("index.html" appended for a trailing slash, ".html" appended below)
+        as_requested = not scope["path"].endswith("/")
         if (
             stat_result is None  # filepath is not exist
             and filepath is not None  # Just for type check
             and not filepath.endswith(".html")  # filepath is not a html file
         ):
             filepath += ".html"
+            as_requested = False
             stat_result, is_file = self.check_path_is_file(filepath)
 
         if stat_result is not None:
@@ -94,10 +99,10 @@ class Pages(Files):
                 return await self.file_response(
                     filepath, stat_result, if_none_match, if_modified_since
                 )(scope, receive, send)
-            if stat.S_ISDIR(stat_result.st_mode):
+            if as_requested and stat.S_ISDIR(stat_result.st_mode):
                 try:
                     url = URL(scope=scope)
-                    url = url.replace(scheme="", path=url.path + "/")
+                    url = url.replace(scheme="", path=quote(url.path + "/"))
                 except ValueError:  # malformed Host header, query that is not UTF-8
                     raise HTTPException(400) from None
                 return await RedirectResponse(url)(scope, receive, send)
